@@ -24,7 +24,7 @@ ASSUMPTIONS = [
     "blocks are canonical RLP (what rskj produces); non-canonical encodings are out of scope",
     "own Keccak-256 / SHA-256 implementations self-check against known vectors and hashlib",
 ]
-FLOORS = {"quick": {"evaluations": 300, "headers_compared": 1500, "brother_lists_compared": 300,
+FLOORS = {"quick": {"evaluations": 300, "headers_compared": 900, "brother_lists_compared": 150,
                     "ancestor_requests": 80, "partial_or_early_stops": 40},
           "thorough": {"evaluations": 15000, "headers_compared": 100000,
                        "brother_lists_compared": 20000, "ancestor_requests": 4000,
